@@ -477,8 +477,7 @@ def _scope_rules(run, pid, r1=True, r2=True, r9=True, generic=True):
                 r7_binary.check_duplicates(run, f)           # x - x, x == x, atan2(a, a), a paired loop variable that is never used
                 if f.module.short not in ('base/animate', 'timing', 'stdlib/collections', 'base/graphics'):
                     r10_args.check_option_used(run, f)       # an option (check, unit, tol, twist ...) that is accepted but never read
-        if not r1:
-            r20_shapes.check_shapes(run, [f for f in fs if f.key not in seen])
+        r20_shapes.check_shapes(run, [f for f in fs if f.key not in seen])
         r15_closed.check_unchecked_sites(run, keys={f.key for f in fs if f.key not in seen})
         run.extra['_generic_done'] = sorted(seen | {f.key for f in fs})
     if r9:
